@@ -620,6 +620,7 @@ DB = "nostr_relay/storage/db.py"
 KV = "nostr_relay/storage/kv.py"
 
 MUTANTS = [
+    M("c06-events-check-constraint", "nostr_relay/storage/__init__.py", "                sa.Column(\"id\", sa.BLOB(), primary_key=True),", "                sa.Column(\"id\", sa.BLOB(), primary_key=True),\n                sa.CheckConstraint(\"kind >= 0\"),", "C06.schema"),
     M("c06-presave-le", DB, "                        & (self.EventTable.c.created_at < event.created_at)\n                    )\n                )\n            await self.process_tags",
       "                        & (self.EventTable.c.created_at <= event.created_at)\n                    )\n                )\n            await self.process_tags", "C06.strict"),
     M("c06-presave-select-le", DB, "                & (self.EventTable.c.created_at < event.created_at)\n            )\n            result = await conn.execute(query)",
